@@ -224,6 +224,31 @@ def binaryMatrixRank (bits n r c k : Nat) (checkSize : Bool) : Except PyErr Rank
   else if c = 0 then .error .zeroDivision
   else binaryMatrixRankImpl ((chunks (bitList bits n) c).map natOfBits) r c k
 
+/-! ## RankDistribution (exact rational arithmetic instead of floats) -/
+
+/-- `prob_dependent = 2**(j - r)` (j ≤ r). -/
+def pd (r j : Nat) : Rat := (2 : Rat) ^ j / (2 : Rat) ^ r
+
+/-- one pass `for j in range(r - 1, -1, -1): res[j+1] += res[j]*(1 - pd); res[j] *= pd` on the entries
+`res[j:]`: the descending loop processes the higher indices first, then index j. -/
+def rankPass (r : Nat) : Nat → List Rat → List Rat
+  | j, x :: y :: rest =>
+    match rankPass r (j + 1) (y :: rest) with
+    | y' :: rest' => (x * pd r j) :: (y' + x * (1 - pd r j)) :: rest'
+    | [] => [x * pd r j]
+  | _, l => l
+
+/-- `res` after `for _ in range(c)`, starting from `[1.0, 0, …, 0]` (r + 1 entries). -/
+def rankRes (r : Nat) : Nat → List Rat
+  | 0 => 1 :: List.replicate r 0
+  | c + 1 => rankPass r 0 (rankRes r c)
+
+/-- `RankDistribution(r, c, k, allow_approximation=False)`: `res[-k:][::-1] + [sum(res[:-k])]`
+(`res[-0:]` is the whole list, `res[:-0]` the empty one). -/
+def rankDistribution (r c k : Nat) : List Rat :=
+  if k = 0 then (rankRes r c).reverse ++ [0]
+  else (rankRes r c).reverse.take k ++ [((rankRes r c).take (r + 1 - k)).sum]
+
 /-! ## 2.7 Non-overlapping template matching -/
 
 /-- `IsNonOverlappingTemplate(template, m)`: no proper prefix equals the suffix of the
